@@ -31,16 +31,59 @@ type VPCase struct {
 	Cons  []VPCons          `json:"cons"`
 	Tag   string            `json:"tag"`      // missing: value | prop | prefix
 	Req   bool              `json:"required"` // missing: is the point required?
+	Pre   bool              `json:"preset"`   // twin: the field holds a value of its type before the start
+	Xs    []int             `json:"xs"`       // vslice: the configured list
 }
 type VPCons struct {
 	K string `json:"k"`
 	N int    `json:"n"`
 }
 
+type vpInner struct {
+	A int            `yaml:"a" json:"a"`
+	B string         `yaml:"b" json:"b"`
+	L []int          `yaml:"l" json:"l"`
+	M map[string]any `yaml:"m" json:"m"`
+}
+
 var vpTypes = map[string]reflect.Type{
 	"string": reflect.TypeOf(""), "int": reflect.TypeOf(0), "float64": reflect.TypeOf(0.0), "bool": reflect.TypeOf(false),
 	"strs": reflect.TypeOf([]string{}), "ints": reflect.TypeOf([]int{}), "map": reflect.TypeOf(map[string]any{}),
 	"any": reflect.TypeOf((*any)(nil)).Elem(),
+	"pint": reflect.TypeOf((*int)(nil)), "pstr": reflect.TypeOf((*string)(nil)),
+	"struct": reflect.TypeOf(vpInner{}), "pstruct": reflect.TypeOf((*vpInner)(nil)),
+}
+
+// a value the field holds BEFORE the start (constructor defaults): binding must replace it by exactly the configured value
+func presetFor(ft string) reflect.Value {
+	i, s := 99, "PRESET"
+	in := vpInner{A: 99, B: "PRESET", L: []int{91, 92, 93, 94}, M: map[string]any{"zz": "preset", "a": "old"}}
+	switch ft {
+	case "string":
+		return reflect.ValueOf("PRESET")
+	case "int":
+		return reflect.ValueOf(99)
+	case "float64":
+		return reflect.ValueOf(9.5)
+	case "bool":
+		return reflect.ValueOf(true)
+	case "strs":
+		return reflect.ValueOf([]string{"p1", "p2", "p3", "p4"})
+	case "ints":
+		return reflect.ValueOf([]int{91, 92, 93, 94})
+	case "map":
+		return reflect.ValueOf(map[string]any{"zz": "preset", "a": "old"})
+	case "any":
+		return reflect.ValueOf("PRESET")
+	case "pint":
+		return reflect.ValueOf(&i)
+	case "pstr":
+		return reflect.ValueOf(&s)
+	case "struct":
+		return reflect.ValueOf(in)
+	default:
+		return reflect.ValueOf(&in)
+	}
 }
 
 func render(v reflect.Value) string {
@@ -55,11 +98,33 @@ func render(v reflect.Value) string {
 	return fmt.Sprintf("%T:%s", x, b)
 }
 
+func jsonOf(x any) string {
+	b, err := json.Marshal(x)
+	if err != nil {
+		return "unmarshalable"
+	}
+	return string(b)
+}
+
+type bound struct {
+	ok, panicked bool
+	val, js, cfg string
+}
+
 // bindOnce starts an App with one holder whose single field F has the given type and tag
 func bindOnce(t reflect.Type, tag string, yamlDoc string) (bool, string, bool) {
+	b := bindFull(t, tag, yamlDoc, "")
+	return b.ok, b.val, b.panicked
+}
+
+func bindFull(t reflect.Type, tag string, yamlDoc string, preset string) bound {
 	typ := reflect.StructOf([]reflect.StructField{{Name: "F", Type: t, Tag: reflect.StructTag(tag)}})
 	v := reflect.New(typ)
+	if preset != "" {
+		v.Elem().Field(0).Set(presetFor(preset))
+	}
 	ok, panicked := true, false
+	cfg := "-"
 	func() {
 		defer func() {
 			if x := recover(); x != nil {
@@ -70,29 +135,38 @@ func bindOnce(t reflect.Type, tag string, yamlDoc string) (bool, string, bool) {
 		if strings.TrimSpace(yamlDoc) != "" {
 			ops = append(ops, app.SetConfigLoader(loader.NewRawLoader([]byte(yamlDoc))))
 		}
-		if err := app.NewApp().Run(ops...); err != nil {
+		ap := app.NewApp()
+		if err := ap.Run(ops...); err != nil {
 			ok = false
 		}
+		if strings.TrimSpace(yamlDoc) != "" {
+			cfg = jsonOf(ap.Get("k"))
+		}
 	}()
-	return ok, render(v.Elem().Field(0)), panicked
+	return bound{ok, panicked, render(v.Elem().Field(0)), jsonOf(v.Elem().Field(0).Interface()), cfg}
 }
 
 func runVP(c *VPCase) map[string]any {
 	out := map[string]any{"kind": c.Kind}
-	res := func(ok bool, val string, p bool) map[string]any {
-		return map[string]any{"ok": ok, "val": val, "panic": p}
-	}
 	switch c.Kind {
 	case "twin":
 		t := vpTypes[c.FType]
-		out["class"], out["ftype"] = c.Class, c.FType
-		out["P"] = res(bindOnce(t, `prefix:"k"`, c.YAML))
-		out["V"] = res(bindOnce(t, `value:"${k}"`, c.YAML))
-		out["Q"] = res(bindOnce(t, `prop:"k"`, c.YAML))
+		out["class"], out["ftype"], out["preset"] = c.Class, c.FType, c.Pre
+		pre := ""
+		if c.Pre {
+			pre = c.FType
+		}
+		resF := func(b bound) map[string]any {
+			return map[string]any{"ok": b.ok, "val": b.val, "panic": b.panicked, "json": b.js}
+		}
+		p := bindFull(t, `prefix:"k"`, c.YAML, pre)
+		out["P"], out["cfg"] = resF(p), p.cfg
+		out["V"] = resF(bindFull(t, `value:"${k}"`, c.YAML, pre))
+		out["Q"] = resF(bindFull(t, `prop:"k"`, c.YAML, pre))
 		if c.Lit != "" {
-			out["L"] = res(bindOnce(t, fmt.Sprintf(`value:%q`, c.Lit), ""))
+			out["L"] = resF(bindFull(t, fmt.Sprintf(`value:%q`, c.Lit), "", pre))
 		} else {
-			out["L"] = map[string]any{"ok": false, "val": "-", "panic": false}
+			out["L"] = map[string]any{"ok": false, "val": "-", "panic": false, "json": "-"}
 		}
 	case "expr":
 		doc := fmt.Sprintf("a: %s\nb: %s\n", c.Cfg["a"], c.Cfg["b"])
@@ -143,11 +217,27 @@ func runVP(c *VPCase) map[string]any {
 			cons = []VPCons{}
 		}
 		out["x"], out["cons"], out["ok"], out["panic"] = c.Val, cons, ok, p
+	case "vslice":
+		// a list bound through a placeholder; "dive" applies the constraints after it to the elements
+		var cs []string
+		for _, k := range c.Cons {
+			if k.K == "required" || k.K == "omitempty" || k.K == "dive" {
+				cs = append(cs, k.K)
+			} else {
+				cs = append(cs, fmt.Sprintf("%s=%d", k.K, k.N))
+			}
+		}
+		xs := c.Xs
+		if xs == nil {
+			xs = []int{}
+		}
+		ok, _, p := bindOnce(vpTypes["ints"], fmt.Sprintf(`value:%q`, "${x},validate="+strings.Join(cs, " ")), "x: "+jsonOf(xs)+"\n")
+		out["xs"], out["cons"], out["ok"], out["panic"] = xs, c.Cons, ok, p
 	case "validate":
 		var cs []string
 		for _, k := range c.Cons {
-			if k.K == "required" {
-				cs = append(cs, "required")
+			if k.K == "required" || k.K == "omitempty" {
+				cs = append(cs, k.K)
 			} else {
 				cs = append(cs, fmt.Sprintf("%s=%d", k.K, k.N))
 			}
